@@ -127,3 +127,29 @@ impl Engine for FrameBufEngine {
         }
     }
 }
+
+/// `p <hex>`: amq-protocol's verdict on one envelope, with a one-line description.
+#[derive(Default)]
+pub struct ParseCheckEngine;
+
+impl Engine for ParseCheckEngine {
+    fn step(&mut self, toks: &[&str], out: &mut Vec<String>) {
+        match toks {
+            ["p", h] => match unhex(h).as_deref().map(parse_whole) {
+                Some(Some(f)) => {
+                    let kind = match f {
+                        AMQPFrame::Method(ch, _) => format!("method {}", ch),
+                        AMQPFrame::Header(ch, _, _) => format!("header {}", ch),
+                        AMQPFrame::Body(ch, _) => format!("body {}", ch),
+                        AMQPFrame::Heartbeat(ch) => format!("heartbeat {}", ch),
+                        AMQPFrame::ProtocolHeader => "protocol-header".to_string(),
+                    };
+                    out.push(format!("ok {}", kind));
+                }
+                Some(None) => out.push("bad".into()),
+                None => out.push("bad-op".into()),
+            },
+            _ => out.push("bad-op".into()),
+        }
+    }
+}
